@@ -149,6 +149,7 @@ type inliner struct {
 	imports       map[string]string // path -> local name to add to the current file
 	writtenObjs   map[types.Object]bool
 	pendingThread *threadInfo
+	pendingRange  *rangeInfo // the next inlined call is the operand of a range statement: unroll the body at its return sites
 	litFuncs      map[types.Object]*types.Func // local variable / parameter bound once to a function literal and only ever called
 	litSynth      map[*types.Func]bool         // … bound while inlining (a callback argument): its free variables are the caller's
 	litVars       map[types.Object]bool        // closure variables of the source that are being inlined (their definition gets a blank use)
@@ -791,6 +792,9 @@ func (in *inliner) processStmt(s ast.Stmt, stack []*types.Func, sites []token.Po
 	case *ast.RangeStmt:
 		in.processBlock(x.Body, stack, sites)
 		in.processFuncLits(x.X, stack, sites)
+		if st := in.unrollRange(x, stack, sites); st != nil {
+			return st
+		}
 		pre := in.hoist(&x.X, stack, sites)
 		return append(pre, x)
 	case *ast.SwitchStmt:
@@ -1333,6 +1337,8 @@ func (in *inliner) inlineCallMode(call *ast.CallExpr, stack []*types.Func, sites
 	in.pendingSinks = nil
 	thread := in.pendingThread
 	in.pendingThread = nil
+	rng := in.pendingRange
+	in.pendingRange = nil
 	if sinks == nil {
 		thread = nil
 	}
@@ -2014,7 +2020,33 @@ func (in *inliner) inlineCallMode(call *ast.CallExpr, stack []*types.Func, sites
 				}
 				x.Results = rs
 			}
-			if len(x.Results) > 0 {
+			if rng != nil {
+				// for v := range h(...) with h returning literal lists: the body once per element, at the return site
+				ok := false
+				if len(x.Results) == 1 {
+					if cl, isLit := ast.Unparen(x.Results[0]).(*ast.CompositeLit); isLit && len(cl.Elts) <= 6 {
+						ok = true
+						for _, e := range cl.Elts {
+							if _, kv := e.(*ast.KeyValueExpr); kv {
+								ok = false
+							}
+						}
+						if ok {
+							for _, e := range cl.Elts {
+								blk := &ast.BlockStmt{List: []ast.Stmt{
+									&ast.AssignStmt{Lhs: []ast.Expr{ast.NewIdent(rng.name)}, Tok: token.DEFINE, Rhs: []ast.Expr{e}},
+									&ast.AssignStmt{Lhs: []ast.Expr{ast.NewIdent("_")}, Tok: token.ASSIGN, Rhs: []ast.Expr{ast.NewIdent(rng.name)}},
+								}}
+								blk.List = append(blk.List, in.cloneNode(rng.body).(*ast.BlockStmt).List...)
+								out = append(out, blk)
+							}
+						}
+					}
+				}
+				if !ok {
+					deferBad = "range over a result that is not a literal list at every return"
+				}
+			} else if len(x.Results) > 0 {
 				var lhs []ast.Expr
 				for i, n := range resNames {
 					if sinks != nil {
@@ -2476,4 +2508,79 @@ func (in *inliner) sentinelError(v *types.Var) bool {
 		}
 	}
 	return in.sentinels[v]
+}
+
+// rangeInfo: `for _, v := range h(...)` whose operand is a call to a new function.
+type rangeInfo struct {
+	name string         // the value variable
+	body *ast.BlockStmt // the loop body (already processed)
+}
+
+// unrollRange handles a range statement over the result of a new function all of whose returns are literal lists
+// (`return []T{a, b}`): the list disappears, and the loop body is copied once per element to every return site of the
+// inlined callee — the shape the code had before "the things to visit" were put in a list. Only for bodies without
+// break / continue / labels / goto, a blank key and a newly declared value variable.
+func (in *inliner) unrollRange(x *ast.RangeStmt, stack []*types.Func, sites []token.Pos) []ast.Stmt {
+	if x.Tok != token.DEFINE || x.Value == nil {
+		return nil
+	}
+	if x.Key != nil {
+		if id, ok := x.Key.(*ast.Ident); !ok || id.Name != "_" {
+			return nil
+		}
+	}
+	val, ok := x.Value.(*ast.Ident)
+	if !ok || val.Name == "_" {
+		return nil
+	}
+	call, ok := ast.Unparen(x.X).(*ast.CallExpr)
+	if !ok {
+		return nil
+	}
+	fn, fd := in.calleeOfCall(call)
+	if fn == nil || onStack(stack, fn) || inlinableBody(fd) != "" {
+		return nil
+	}
+	sig := fn.Type().(*types.Signature)
+	if sig.Results().Len() != 1 || sig.Results().At(0).Name() != "" {
+		return nil
+	}
+	for _, a := range call.Args {
+		if in.containsInlinable(a, stack) {
+			return nil
+		}
+	}
+	good := true
+	ast.Inspect(fd.Body, func(n ast.Node) bool {
+		switch y := n.(type) {
+		case *ast.FuncLit:
+			return false
+		case *ast.DeferStmt:
+			good = false
+		case *ast.ReturnStmt:
+			if len(y.Results) != 1 {
+				good = false
+			} else if _, isLit := ast.Unparen(y.Results[0]).(*ast.CompositeLit); !isLit {
+				good = false
+			}
+		}
+		return good
+	})
+	ast.Inspect(x.Body, func(n ast.Node) bool {
+		switch n.(type) {
+		case *ast.FuncLit:
+			return false
+		case *ast.BranchStmt, *ast.LabeledStmt:
+			good = false
+		}
+		return good
+	})
+	if !good {
+		return nil
+	}
+	in.pendingRange = &rangeInfo{name: val.Name, body: x.Body}
+	in.pendingSinks = []ast.Expr{ast.NewIdent("_")}
+	st := in.inlineCallMode(call, stack, sites, nil, false)
+	in.pendingSinks, in.pendingRange = nil, nil
+	return st
 }
